@@ -250,7 +250,7 @@ fn gen_true(t: &mut Tape, name: &'static str) -> Opt {
 }
 
 enum PairVerdict {
-    BothAccepted { options_matter: bool },
+    BothAccepted { options_matter: bool, nested: bool },
     BothRejected,
 }
 
@@ -259,7 +259,7 @@ fn check_pair(p: &Pair) -> Result<PairVerdict, String> {
     let b = e1::outcome(&p.b.0, &p.b.1, &p.item).map_err(|e| format!("HARNESS: {e}"))?;
     match (a, b) {
         (Outcome::Panic(m), _) | (_, Outcome::Panic(m)) => Err(format!("HARNESS-SKIP panic (C15's business): {m}")),
-        (Outcome::Accepted(ta, _), Outcome::Accepted(tb, _)) => {
+        (Outcome::Accepted(ta, sa), Outcome::Accepted(tb, sb)) => {
             if ta != tb {
                 let at = ta.iter().zip(tb.iter()).position(|(x, y)| x != y).unwrap_or(ta.len().min(tb.len()));
                 return Err(format!(
@@ -273,6 +273,29 @@ fn check_pair(p: &Pair) -> Result<PairVerdict, String> {
                     crate::tok::render(&tb[at.min(tb.len())..(at + 3).min(tb.len())]),
                 ));
             }
+            // the invocations the macro emits itself are part of the expansion: the side standing for the `unimock` feature
+            // resolves `::entrait::entrait` to the `_unimock` variant, the other side to the plain macro
+            {
+                if let (Ok((da, na)), Ok((db, nb))) = (e1::deep_expand(sa, p.a.0.contains("unimock")), e1::deep_expand(sb, p.b.0.contains("unimock"))) {
+                    if na + nb > 0 {
+                        let (da, db) = (crate::tok::toks(da), crate::tok::toks(db));
+                        if da != db {
+                            let at = da.iter().zip(db.iter()).position(|(x, y)| x != y).unwrap_or(da.len().min(db.len()));
+                            return Err(format!(
+                                "relation `{}` broken one expansion level down (the invocation the macro emits on the leaf trait of a concrete-dependency fn): #[{}({})] and #[{}({})] end up different (first difference at top-level token {at}: `{}` vs `{}`)",
+                                p.relation,
+                                p.a.0,
+                                p.a.1,
+                                p.b.0,
+                                p.b.1,
+                                crate::tok::render(&da[at.min(da.len())..(at + 3).min(da.len())]),
+                                crate::tok::render(&db[at.min(db.len())..(at + 3).min(db.len())]),
+                            ));
+                        }
+                        return Ok(PairVerdict::BothAccepted { options_matter: true, nested: true });
+                    }
+                }
+            }
             // do the options matter at all? compare with the option-less invocation of the plain macro
             let head_only = p.a.1.split(',').next().unwrap_or("").to_string();
             let head_only = if head_only.contains('=') || head_only.trim() == "?Send" { String::new() } else { head_only };
@@ -281,7 +304,7 @@ fn check_pair(p: &Pair) -> Result<PairVerdict, String> {
                 Some(Outcome::Accepted(tp, _)) => tp != ta,
                 _ => true,
             };
-            Ok(PairVerdict::BothAccepted { options_matter })
+            Ok(PairVerdict::BothAccepted { options_matter, nested: false })
         }
         (Outcome::Rejected(_), Outcome::Rejected(_)) => Ok(PairVerdict::BothRejected),
         (Outcome::Accepted(..), Outcome::Rejected(m)) => Err(format!(
@@ -420,8 +443,11 @@ fn one(ctx: &mut Ctx, tape: &[u32]) -> Result<(), Fail> {
     };
     ctx.count_eval();
     match check_pair(&p) {
-        Ok(PairVerdict::BothAccepted { options_matter }) => {
+        Ok(PairVerdict::BothAccepted { options_matter, nested }) => {
             ctx.class(&format!("{}:accepted", p.relation));
+            if nested {
+                ctx.class(&format!("{}:accepted_with_nested_invocation_expanded", p.relation));
+            }
             if options_matter {
                 ctx.nontrivial(&(&p.a, &p.b, &p.item));
                 ctx.sample(|| p.json());
